@@ -603,6 +603,14 @@ func symExpr(c *Ctx, v ssa.Value, rename map[string]string, bound map[ssa.Value]
 		}
 		return "(" + l + " " + x.Op.String() + " " + rr + ")"
 	case *ssa.UnOp:
+		if x.Op == token.MUL {
+			if fa, ok := x.X.(*ssa.FieldAddr); ok {
+				return symExpr(c, fa.X, rename, bound, depth+1) + "." + strings.SplitN(fieldKeyOf(fa), ".", 2)[1]
+			}
+			if g, ok := x.X.(*ssa.Global); ok {
+				return gname(g)
+			}
+		}
 		return x.Op.String() + symExpr(c, x.X, rename, bound, depth+1)
 	case *ssa.Call:
 		name := "call"
